@@ -327,6 +327,22 @@ func runC09(r *Report) {
 			var cliPath []*ClientReqRow
 			seen := map[string]bool{}
 			var codec, presence []string
+			// the layout a date-time parameter is formatted with must be the declared one
+			// (RFC3339Nano unless x-goag-go-time-format): the same coarser layout on both
+			// sides is still an inverse pair on the wire, but drops the sub-second part
+			declLayout := func(in, name string, formats []FormatCall) {
+				for _, prm := range ops[h.Method+" "+h.Path].Params {
+					if prm.In != in || !strings.EqualFold(prm.Name, name) || prm.Schema == nil || isCustom(prm.Schema) {
+						continue
+					}
+					want := expectedFormat(prm.Schema)
+					if len(want) == 1 && want[0].Callee == "time.Time.Format" {
+						if ok, why := formatsEqual(formats, want); !ok {
+							codec = append(codec, in+" "+name+": "+why)
+						}
+					}
+				}
+			}
 			for _, row := range m.Rows {
 				nRows++
 				if row.In == "path" {
@@ -351,6 +367,7 @@ func runC09(r *Report) {
 						codec = append(codec, row.In+" "+row.Key+": "+why)
 					}
 				}
+				declLayout(row.In, row.Key, row.Formats)
 				if row.Array != sr.Array {
 					codec = append(codec, row.In+" "+row.Key+": array on one side only")
 				}
@@ -382,6 +399,7 @@ func runC09(r *Report) {
 					if !cliPath[i].Escaped && !urlSafe {
 						problems = append(problems, "path variable "+nameOfVar(cliPath[i].Field)+" is not passed through url.PathEscape")
 					}
+					declLayout("path", srvPath[i].Key, cliPath[i].Formats)
 					if !strings.HasPrefix(strings.Join(srvPath[i].OtherCalls, ","), "custom:") {
 						if ok, why := inversePair(cliPath[i].Formats, srvPath[i].Convs); !ok {
 							codec = append(codec, "path "+srvPath[i].Key+": "+why)
